@@ -11,6 +11,10 @@ from common import use_repo_sources
 use_repo_sources()
 
 
+# the de-duplication keys the line protocol calls 1, 2, 3, …
+DEDUP_KEYS = {1: 0, 2: '', 3: ('k', 3), 4: ()}
+
+
 class Boom(Exception):
     pass
 
@@ -57,7 +61,8 @@ class TmImpl:
             # parallel managers: the harness must not keep the task alive through the coroutine object
             coros[c] = weakref.ref(co) if par else (lambda co=co: co)
             if self.kind == 'dedup':
-                mgr.create_task(co, key, name=f'c{c}')
+                # any hashable is a legal key, falsy ones included (0, '', an empty tuple)
+                mgr.create_task(co, DEDUP_KEYS.get(key, key), name=f'c{c}')
             else:
                 mgr.create_task(co, name=f'c{c}')
             if par and inspect.getcoroutinestate(co) == 'CORO_CLOSED':
